@@ -23,6 +23,13 @@ def pipeline_jobs(ctx, n):
                              "process": rng.random() < 0.3 and iface != "tf", "hold": rng.random() < 0.5})
                 if iface == "tf" and rng.random() < 0.5:
                     reqs[-1]["batch"] = rng.choice([2, 3, 5, 16])      # the last batch of a pass may be short; nothing may be dropped
+                if reqs[-1]["process"] and reqs[-1]["hold"] and rng.random() < 0.5:
+                    reqs[-1]["inplace"] = True                         # process_record updates the example it was given and returns it
+            if iface == "tf":
+                # the returned tf.data.Dataset iterated twice as the same object, shuffled: both passes must deliver the whole split
+                reqs.append({"iface": "tf", "split": 0, "shuffle": rng.choice([2, 7, 100]), "repeat": False, "file_parallelism": rng.choice([1, 2, 3]), "process": False, "reiterate": 2})
+            if iface == "rust":
+                reqs.append({"iface": "rust", "split": 0, "shuffle": rng.choice([0, 3]), "repeat": False, "file_parallelism": 2, "process": True, "hold": True, "inplace": True})
         # the same interfaces with a fixed LCG seed and a known final shuffle: their output is then a function of the inputs,
         # compared element by element with the generated composition model (GenPipeline)
         for iface in iterlib.ifaces_for(spec):
@@ -54,7 +61,8 @@ def pipeline_jobs(ctx, n):
         spec = {"format": fmt, "compression": "", "eps": 4, "sessions": [{"kind": "filler", "sub": [], "reopen": False, "ops": [Wr] * 7},
                                                                        {"kind": "filler", "sub": [], "reopen": False, "ops": [Wr] * 3, "set_eps": 2}]}
         jobs.append({"dataset": spec, "requests": [{"iface": iface, "split": 0, "shuffle": sh, "repeat": False, "file_parallelism": 2, "process": False}
-                                                   for iface in iterlib.ifaces_for(spec) for sh in (0, 3)]})
+                                                   for iface in iterlib.ifaces_for(spec) for sh in (0, 3)] +
+                     [{"iface": "tf", "split": 0, "shuffle": sh, "repeat": False, "file_parallelism": 2, "process": False, "reiterate": 3} for sh in (0, 7)]})
     return jobs
 
 
@@ -180,6 +188,13 @@ def run(ctx):
                 ctx.report("iteration-error", f"{q}: {o['error']}", {"job": one})
                 continue
             want = sorted(ref["seq"])
+            if q.get("reiterate"):
+                for pi, ps in enumerate(o["out"]):
+                    if sorted(ps) != want:
+                        ctx.report("examples-lost" if set(want) - set(ps) else "examples-duplicated",
+                                   f"tf shuffle={q['shuffle']} on {job['dataset']['format']}: pass {pi} over the SAME returned dataset object delivered {len(ps)} examples for {len(want)}", {"job": one})
+                        break
+                continue
             got = [x - 100000 for x in o["out"]] if q.get("process") else o["out"]
             nontrivial.add(json.dumps([job["dataset"]["format"], q["iface"], q["shuffle"], q["file_parallelism"], len(ref["shards"]), q.get("process", False)]))
             if sorted(got) != want:
@@ -265,6 +280,9 @@ def replay(ctx, rp):
             ok = ok and (sorted(vals) == sorted(rs["seq"]) if st.get("shuffle") else vals == rs["seq"])
         return ok
     ref = r["reference"].get(str(q["split"]), {"seq": []})
+    if q.get("reiterate"):
+        print(json.dumps({"expected": sorted(ref["seq"]), "passes": o.get("out")})[:1500])
+        return not o.get("error") and not o.get("hang") and all(sorted(ps) == sorted(ref["seq"]) for ps in o.get("out", [[]]))
     got = [x - 100000 for x in o.get("out", [])] if q.get("process") else o.get("out", [])
     print(json.dumps({"expected": sorted(ref["seq"]), "got": got, "raw": {k: v for k, v in o.items() if k != "out"}})[:2000])
     return sorted(got) == sorted(ref["seq"]) and not o.get("error") and not o.get("hang")
